@@ -202,7 +202,7 @@ json generate(uint64_t seed, uint64_t idx, int tier)
 			plan["world"]["fs"].push_back(l);
 		plan["world"]["fs"].push_back({{"path", "/real"}, {"kind", "dir"}});
 	}
-	plan["knobs"] = {{"tty", r.chance(1, 8)}, {"fill", 0xA5}};
+	plan["knobs"] = {{"tty", r.chance(1, 8)}, {"fill", 0xA5}, {"recycle", r.chance(1, 2)}};
 	plan["steps"] = steps;
 	plan["params"] = params;
 	for (auto &st : steps)
@@ -375,7 +375,7 @@ JudgeOut judge(const json &plan)
 	out.viol.erase(std::remove_if(out.viol.begin(), out.viol.end(), [](const Violation &v) { return v.cls.compare(0, 7, "stdout:") == 0 || v.cls.compare(0, 6, "stdin:") == 0; }), out.viol.end());
 	// after every parse: include stack empty, streams closed
 	for (auto &c : r.conservation)
-		if (c.compare(0, 13, "include-stack") == 0 || c.compare(0, 11, "stream-leak") == 0)
+		if (c.compare(0, 13, "include-stack") == 0 || c.compare(0, 11, "stream-leak") == 0 || c.compare(0, 22, "stream-use-after-close") == 0)
 			out.viol.push_back({c.substr(0, c.find_first_of(" =")), "at the end of the run: " + c, nullptr});
 	if (r.died)
 		return out;
